@@ -5,5 +5,6 @@ import DateutilVerif.Properties.C14
 #print axioms C14.default_info_wf
 #print axioms C14.inner_parse_never_raises
 #print axioms C14.lex_terminates
+#print axioms C14.lex_output_bounded
 #print axioms C14.parse_terminates
 #print axioms C14.parse_pure
